@@ -20,7 +20,8 @@ TEXT = ("Typestate analysis of the four-state field Delta.status, exhaustive ove
         "after a marking step has run. A5: the object-availability predicate returns true only on index membership or a verified read. "
         "A7: the marking pass runs the dependency check for every Pending block of the whole block map, and the applier inserts every "
         "record of the block it applies. "
-        "Does not decide equality of incremental refreshes with a full reload over histories.")
+        "Does not decide equality of incremental refreshes with a full reload over histories."
+        " A2c also covers conditional combinators on the presence test (Option::filter on a flag). A5b: nothing the availability predicate reaches looks an object up in the stage or the LRU cache (availability means stored). A5c: every revision kind write_object stores nothing for is answered available.")
 TECHNIQUE = 'static analysis over rustc MIR: typestate of Delta.status (edge dominance + reachability with pass edges removed, loop and all()/any() closure forms), transition-table extraction, sibling agreement of the three loaders'
 TRUSTED = ["rustc nightly MIR", "derive(PartialEq) on the fieldless enum Status compares discriminants",
            "C10/H1: the pack loader and the object reader verify hashes"]
